@@ -807,3 +807,164 @@ for fut in self._pending_data_frames.values():
         if _dump(got) != _dump(exp):
             raise GenError(nm, "source differs from the form the model mirrors:\n" + got)
     return "".join(out)
+
+
+# ==================================================================================================
+# Gateway (bellows/uart.py) and the EZSP facade's failure handling (bellows/ezsp/__init__.py)
+# ==================================================================================================
+GW_STATE = ["r_attr", "r_fut", "s_attr", "s_fut", "t_open", "running", "has_gw", "app_cb", "eff"]
+GW_FUT = {"_reset_future": ("r_attr", "r_fut"), "_startup_reset_future": ("s_attr", "s_fut")}
+
+
+class GwTr:
+    """synchronous methods of Gateway / EZSP over one joint state; futures are (attribute is not None, state of the
+    future object); `_connection_done_future` (threaded mode bookkeeping) and log calls are skipped"""
+
+    def __init__(self, cls_name, where, params, methods):
+        self.cls, self.where, self.params, self.methods = cls_name, where, params, methods
+
+    def refuse(self, node, why="unsupported construct"):
+        raise GenError(self.where, f"{why}: `{ast.unparse(node)[:90]}`")
+
+    def fut_of(self, e):
+        if isinstance(e, ast.Attribute) and isinstance(e.value, ast.Name) and e.value.id == "self" and e.attr in GW_FUT and self.cls == "Gateway":
+            return GW_FUT[e.attr]
+        return None
+
+    def cond(self, t):
+        src = ast.unparse(t)
+        if isinstance(t, ast.BoolOp) and isinstance(t.op, ast.And):
+            return "(" + " && ".join(self.cond(v) for v in t.values) + ")"
+        if isinstance(t, ast.UnaryOp) and isinstance(t.op, ast.Not):
+            return f"(negb {self.cond(t.operand)})"
+        f = self.fut_of(t)
+        if f:
+            return f[0]                                   # a Future object is truthy: the attribute is not None
+        if isinstance(t, ast.Call) and isinstance(t.func, ast.Attribute) and t.func.attr == "done" and not t.args:
+            f = self.fut_of(t.func.value)
+            if f:
+                return f"(negb (is_pend {f[1]}))"
+        if isinstance(t, ast.Compare) and len(t.ops) == 1 and isinstance(t.comparators[0], ast.Constant) and t.comparators[0].value is None:
+            f = self.fut_of(t.left)
+            if f and isinstance(t.ops[0], ast.IsNot):
+                return f[0]
+            if f and isinstance(t.ops[0], ast.Is):
+                return f"(negb {f[0]})"
+            if src == "exc is None" and "has_exc" in self.params:
+                return "(negb has_exc)"
+        if src == "code is not t.NcpResetCode.RESET_SOFTWARE" and "code" in self.params:
+            return "(negb (code =? RESET_SOFTWARE))"
+        if src == "len(self._callbacks) > 1" and self.cls == "EZSP":
+            return "app_cb"
+        if src == "self._gw" and self.cls == "EZSP":
+            return "has_gw"
+        self.refuse(t, "condition")
+
+    def ghost(self, s):
+        src = ast.unparse(s)
+        return "_connection_done_future" in src or src.startswith(("LOGGER.", "_LOGGER.")) or src.startswith("reason = ")
+
+    def stmts(self, body):
+        done = "(" + ", ".join(GW_STATE) + ")"
+        if not body:
+            return done
+        s, rest = body[0], body[1:]
+        if isinstance(s, ast.Expr) and isinstance(s.value, ast.Constant):
+            return self.stmts(rest)
+        if self.ghost(s):
+            return self.stmts(rest)
+        if isinstance(s, ast.Return) and s.value is None:
+            return done
+        if isinstance(s, ast.If):
+            a = self.stmts(list(s.body) + rest)
+            b = self.stmts(list(s.orelse) + rest)
+            return f"if {self.cond(s.test)} then\n{textwrap.indent(a, '  ')}\nelse\n{textwrap.indent(b, '  ')}"
+        if isinstance(s, ast.Assign) and len(s.targets) == 1:
+            f = self.fut_of(s.targets[0])
+            if f and isinstance(s.value, ast.Constant) and s.value.value is None:
+                return f"let {f[0]} := false in\n{self.stmts(rest)}"
+            if ast.unparse(s) == "self._gw = None" and self.cls == "EZSP":
+                return f"let has_gw := false in\n{self.stmts(rest)}"
+            self.refuse(s, "assignment")
+        if isinstance(s, ast.Expr) and isinstance(s.value, ast.Call):
+            c = s.value
+            fn = ast.unparse(c.func)
+            if isinstance(c.func, ast.Attribute) and c.func.attr in ("set_result", "set_exception"):
+                f = self.fut_of(c.func.value)
+                if f and c.func.attr == "set_result" and ast.unparse(c.args[0]) == "True":
+                    return f"let {f[1]} := FOk in\n{self.stmts(rest)}"
+                if f and c.func.attr == "set_exception" and ast.unparse(c.args[0]) == "reason":
+                    return f"let {f[1]} := FExn in\n{self.stmts(rest)}"
+            call = None
+            if self.cls == "Gateway":
+                if fn == "self._application.enter_failed_state" and len(c.args) == 1:
+                    call = ("EZSP_enter_failed_state", "PAppFailed")
+                elif fn == "self._application.connection_lost" and ast.unparse(c.args[0]) == "exc":
+                    call = ("EZSP_connection_lost", "PAppFailed")
+                elif fn == "self.connection_lost" and len(c.args) == 1 and isinstance(c.args[0], ast.Call) \
+                        and ast.unparse(c.args[0].func) == "ConnectionResetError":
+                    return (f"let '({', '.join(GW_STATE)}) := py_Gateway_connection_lost_k ({', '.join(GW_STATE)}) true in\n"
+                            f"{self.stmts(rest)}")
+                elif fn == "self._transport.close" and not c.args:
+                    return f"let eff := eff ++ [PTransportClose] in\nlet t_open := false in\n{self.stmts(rest)}"
+            else:
+                if fn == "self.enter_failed_state" and len(c.args) == 1:
+                    call = ("EZSP_enter_failed_state", None)
+                elif fn == "self.close" and not c.args:
+                    call = ("EZSP_close", None)
+                elif fn == "self.stop_ezsp" and not c.args:
+                    call = ("EZSP_stop_ezsp", None)
+                elif fn == "self._gw.close" and not c.args:
+                    call = ("Gateway_close", None)
+                elif fn == "self._ezsp_event.clear" and not c.args:
+                    return f"let running := false in\n{self.stmts(rest)}"
+                elif fn == "self.handle_callback" and ast.unparse(c.args[0]) == "'_reset_controller_application'":
+                    return f"let eff := eff ++ [PResetRequest] in\n{self.stmts(rest)}"
+            if call:
+                name, pre = call
+                if name not in self.methods:
+                    self.refuse(s, f"call of {name} before it is translated")
+                out = ""
+                if pre:
+                    out += f"let eff := eff ++ [{pre}] in\n"
+                return (out + f"let '({', '.join(GW_STATE)}) := py_{name}_k ({', '.join(GW_STATE)}) in\n{self.stmts(rest)}")
+        self.refuse(s)
+
+
+def gen_gateway_fn() -> str:
+    import bellows.ezsp as E
+    import bellows.uart as U
+    out = ["(* GENERATED by harness/pysrc.py from the SOURCE TEXT of bellows/uart.py (Gateway) and of the failure handling of\n"
+           "   bellows/ezsp/__init__.py (EZSP) -- do not edit *)\n"
+           "From Coq Require Import NArith List Bool.\nImport ListNotations.\nRequire Import BV.gen.GenAsh BV.model.Gateway.\nOpen Scope N_scope.\n\n"
+           "Inductive gw_eff := PAppFailed | PResetRequest | PTransportClose.\n"
+           "(* state: (_reset_future is not None, its future; _startup_reset_future is not None, its future; transport open;\n"
+           "   _ezsp_event set; _gw is not None; an application callback is registered; effects so far) *)\n"
+           "Definition gw_state := (bool * fstate * bool * fstate * bool * bool * bool * bool * list gw_eff)%type.\n\n"]
+    plan = [("Gateway", U.Gateway, "close", []), ("EZSP", E.EZSP, "stop_ezsp", []), ("EZSP", E.EZSP, "close", []),
+            ("EZSP", E.EZSP, "enter_failed_state", ["error"]), ("EZSP", E.EZSP, "connection_lost", ["exc"]),
+            ("Gateway", U.Gateway, "reset_received", ["code"]), ("Gateway", U.Gateway, "error_received", ["code"]),
+            ("Gateway", U.Gateway, "connection_lost", ["exc"]), ("Gateway", U.Gateway, "eof_received", []),
+            ("Gateway", U.Gateway, "_reset_cleanup", ["future"])]
+    methods = []
+    for cname, cls, name, want in plan:
+        fn = cls.__dict__[name]
+        node = _fn_ast(fn)
+        got = [a.arg for a in node.args.args if a.arg != "self"]
+        if got != want:
+            raise GenError(f"{cname}.{name}", f"parameters {got}, expected {want}")
+        params = {}
+        sig = ""
+        if cname == "Gateway" and name in ("reset_received", "error_received"):
+            params["code"] = "N"
+            sig = " (code : N)"
+        if cname == "Gateway" and name == "connection_lost":
+            params["has_exc"] = "bool"
+            sig = " (has_exc : bool)"
+        tr = GwTr(cname, f"{cname}.{name} (source)", params, methods)
+        term = tr.stmts(list(node.body))
+        out.append(f"(* from the source of {cname}.{name} *)\n"
+                   f"Definition py_{cname}_{name}_k (s : gw_state){sig} : gw_state :=\n"
+                   f"  let '({', '.join(GW_STATE)}) := s in\n{textwrap.indent(term, '  ')}.\n\n")
+        methods.append(f"{cname}_{name}")
+    return "".join(out)
